@@ -114,10 +114,13 @@ func (u *Unit) Run() {
 		for _, in := range fn.Blocks[0].Instrs {
 			switch x := in.(type) {
 			case *ssa.Defer:
+				// the recover wrapper must be deferred DIRECTLY (recover() only works in the
+				// deferred function itself); other defers (close, unlock) may come before it
 				if callee := x.Call.StaticCallee(); callee != nil && strings.HasSuffix(funcKey(callee), want) {
 					ok = true
+					break scan
 				}
-				break scan
+				continue
 			case *ssa.Call:
 				if b, isB := x.Call.Value.(*ssa.Builtin); isB && strings.HasPrefix(b.Name(), "ssa:") {
 					continue
